@@ -715,6 +715,14 @@ func (u *udpCase) pickDest() dest {
 	port := s.addr.Port
 	is4 := s.addr.IP.To4() != nil
 	switch {
+	case r.Chance(5) && u.isPublicSink(s):
+		// a destination the policy accepts but the operating system refuses to send to (port 0:
+		// EINVAL): the association is created and armed all the same, the datagram is reported
+		// ERR_WRITE with nothing sent
+		if is4 {
+			return dest{header: socksV4(s.addr.IP, 0), kind: "port0"}
+		}
+		return dest{header: socksV6(s.addr.IP, 0), kind: "port0"}
 	case r.Chance(15):
 		return dest{sink: s, header: socksDomain(s.addr.IP.String(), port), host: s.addr.IP.String(), kind: "domain-literal"}
 	case r.Chance(8) && is4:
@@ -847,7 +855,7 @@ func (u *udpCase) opPkt(client *net.UDPAddr, unknown []*specKey, opts pktOpts) {
 		}
 		u.lastDest[cs] = d
 		if opts.forceValid {
-			for i := 0; i < 50 && (d.kind == "domain-literal" || (!u.allow && !u.isPublicSink(d.sink)) || (opts.noDNS && d.sink.addr.Port == 53)); i++ {
+			for i := 0; i < 50 && (d.kind == "domain-literal" || d.kind == "port0" || (!u.allow && !u.isPublicSink(d.sink)) || (opts.noDNS && d.sink.addr.Port == 53)); i++ {
 				d = u.pickDest()
 			}
 		}
@@ -950,6 +958,9 @@ func (u *udpCase) opPkt(client *net.UDPAddr, unknown []*specKey, opts pktOpts) {
 	sort.Ints(opens)
 	op := fmt.Sprintf("udp pkt c=%s ip=%d wire=%d opens=%s plain=%s res=%s", cs, u.clientIPID(client), min(len(wire), 65536),
 		intsField(opens), hexs(specPlain), res)
+	if d.kind == "port0" {
+		op += " sendfails=1"
+	}
 	fmt.Fprintf(os.Stderr, "#intent %s\n", op[:min(len(op), 200)])
 	// ---- feed it and collect what happened
 	opts.conn.in <- scriptPkt{data: wire, addr: client}
@@ -1077,6 +1088,14 @@ func (u *udpCase) opPkt(client *net.UDPAddr, unknown []*specKey, opts pktOpts) {
 		}
 	}
 	for _, p := range got {
+		// an association whose first datagram never left (refused send) has no known source port
+		// yet: the first datagram that does leave reveals it
+		if ph, ok := u.natPort[cs]; ok && ph < 0 {
+			if _, taken := u.portLbl[p.from.Port]; !taken {
+				u.portLbl[p.from.Port] = u.portLbl[ph]
+				u.natPort[cs] = p.from.Port
+			}
+		}
 		lbl, known := u.portLbl[p.from.Port]
 		if !known {
 			lbl = "s?"
